@@ -14,7 +14,7 @@ RULE = ("case = one rendered multi-block file (1-6 blocks; 1-3 header lines; '#S
         "mini-parser. non-trivial = file with >=2 blocks or a constraint or a cycle; distinct = file text")
 CASE_TIMEOUT = {"quick": 120, "thorough": 600}
 REQUIRED_OBS = {"c20.blocks_compared": 300, "c20.corruptions_judged": 300, "c20.fixture_blocks": 1}
-ASSUMPTIONS = ["graphs have >=1 source and >=1 sink (as quantified); comment lines only in headers; no duplicate edge lines; header lines do not start with '#S'",
+ASSUMPTIONS = ["graphs have >=1 source and >=1 sink (as quantified); comment lines only in headers; an edge line is repeated only verbatim (same weight); header lines do not start with '#S'",
                "non-numeric tokens used for corruption are ones Python's float()/int() reject (abc, 1.2.3, --, 1,5, 0x10, empty-ish)"]
 EXHAUSTIVE = {"quick": False, "thorough": False}
 
@@ -35,6 +35,9 @@ def make_block(rng, idx):
     for (u, v) in edges:
         w = rng.choice([0, 1, 2, 3, 7, 10, 100, 0.5, 2.25, 3.5, 12.125])
         toks.append((u, v, rng.choice(WFORMS)(w)))
+    if toks and rng.random() < 0.1:
+        # an edge line listed twice, verbatim (same weight, so 'the listed edges and weights' stay unambiguous): one edge, counted once
+        toks.insert(rng.randrange(len(toks) + 1), rng.choice(toks))
     cons = []
     G = nx.DiGraph(edges)
     for _ in range(rng.choice([0, 0, 1, 2, 3])):
